@@ -2,6 +2,7 @@ package sess
 
 import (
 	"bufio"
+	"bytes"
 	"fmt"
 	"net"
 	"os"
@@ -19,6 +20,7 @@ import (
 	"github.com/bluenviron/gortsplib/v5/pkg/format"
 	"github.com/bluenviron/gortsplib/v5/pkg/headers"
 	"github.com/pion/rtcp"
+	"github.com/pion/rtp"
 )
 
 const watchdog = 5 * time.Second
@@ -29,7 +31,9 @@ type Cfg struct {
 	UDP     bool `json:"udp"`
 	Mcast   bool `json:"mcast"`
 	NMedias int  `json:"nmedias"`
-	IdleMs  int  `json:"idle_ms,omitempty"` // IdleTimeout in ms; 0 = the library default (60 s)
+	IdleMs  int  `json:"idle_ms,omitempty"`  // IdleTimeout in ms; 0 = the library default (60 s)
+	ReadMs  int  `json:"read_ms,omitempty"`  // ReadTimeout in ms; 0 = the library default (10 s)
+	CheckMs int  `json:"check_ms,omitempty"` // period of the UDP stream check in ms; 0 = the library default (1 s)
 }
 
 func (c Cfg) idleMs() int {
@@ -89,6 +93,25 @@ type instance struct {
 	timeoutCfg *timeoutCfg
 	nCases     int
 	stuck      bool // a server routine hangs: do not wait for this instance any more
+
+	// media paths of the current case, learned from the responses
+	udpSocks  map[int]*udpPair // client port pair -> sockets the harness owns
+	sessMedia map[int]*mediaPath
+	envErr    string // the operating system refused a socket operation of the harness
+	mediaSeq  uint16
+}
+
+type udpPair struct {
+	rtp, rtcp *net.UDPConn
+}
+
+// mediaPath: where the first media of a session flows (as announced by the SETUP response)
+type mediaPath struct {
+	udpPort    int          // client RTP port (UDP), 0 otherwise
+	serverRTP  *net.UDPAddr // server RTP port (UDP)
+	tcpChannel int          // interleaved channel of RTP (TCP)
+	tcp        bool
+	owner      int // connection that sent the last PLAY / RECORD answered 200 (-1: none yet)
 }
 
 type timeoutCfg struct {
@@ -118,6 +141,12 @@ func newInstance(cfg Cfg, tc *timeoutCfg) (*instance, error) {
 		}
 		if cfg.IdleMs != 0 {
 			s.IdleTimeout = time.Duration(cfg.IdleMs) * time.Millisecond
+		}
+		if cfg.ReadMs != 0 {
+			s.ReadTimeout = time.Duration(cfg.ReadMs) * time.Millisecond
+		}
+		if cfg.CheckMs != 0 {
+			s.VerifSetCheckStreamPeriod(time.Duration(cfg.CheckMs) * time.Millisecond)
 		}
 		if tc != nil {
 			s.IdleTimeout = tc.idle
@@ -263,6 +292,13 @@ func (in *instance) reset() {
 	in.core.mu.Unlock()
 	in.hang = ""
 	in.extraResp = ""
+	for _, p := range in.udpSocks {
+		p.rtp.Close()
+		p.rtcp.Close()
+	}
+	in.udpSocks = map[int]*udpPair{}
+	in.sessMedia = map[int]*mediaPath{}
+	in.envErr = ""
 }
 
 var stateNames = map[gortsplib.ServerSessionState]string{
@@ -525,6 +561,30 @@ func (in *instance) sessionIDFor(ref string) (string, bool) {
 	return fmt.Sprintf("neverissued%d", k), true
 }
 
+// clientPort: the real port of an abstract client port pair (52000..59998, 1000 per worker process)
+func clientPort(id int) int {
+	return 52000 + portSlice*1000 + 2*(id%500)
+}
+
+// ownPorts binds the client port pair, so that media can be received on it and sent from it.
+func (in *instance) ownPorts(p int) {
+	if _, ok := in.udpSocks[p]; ok {
+		return
+	}
+	a, err := net.ListenUDP("udp", &net.UDPAddr{IP: net.IPv4(127, 0, 0, 1), Port: p})
+	if err != nil {
+		in.envErr = "bind: " + err.Error()
+		return
+	}
+	b, err := net.ListenUDP("udp", &net.UDPAddr{IP: net.IPv4(127, 0, 0, 1), Port: p + 1})
+	if err != nil {
+		a.Close()
+		in.envErr = "bind: " + err.Error()
+		return
+	}
+	in.udpSocks[p] = &udpPair{rtp: a, rtcp: b}
+}
+
 func buildTransports(spec string) (base.HeaderValue, error) {
 	var ts headers.Transports
 	for _, a := range strings.Split(spec, ",") {
@@ -556,9 +616,9 @@ func buildTransports(spec string) (base.HeaderValue, error) {
 			t.Mode = &m
 		}
 		if f[0] == "u" && f[3] != "0" {
-			// field 3 = 1 + port id; the server only compares and stores the numbers
+			// field 3 = 1 + port id
 			id, _ := strconv.Atoi(f[3])
-			p := 30000 + 2*((id-1)%10000)
+			p := clientPort(id - 1)
 			t.ClientPorts = &[2]int{p, p + 1}
 		}
 		if f[0] == "t" && f[4] != "0" {
@@ -731,8 +791,16 @@ func (in *instance) doReq(r Req) (ReqResult, error) {
 	}
 	if v, ok := res.Header["Transport"]; ok {
 		var th headers.Transport
-		if th.Unmarshal(v) == nil && th.InterleavedIDs != nil {
-			out.Chan = strconv.Itoa(th.InterleavedIDs[0])
+		if th.Unmarshal(v) == nil {
+			if th.InterleavedIDs != nil {
+				out.Chan = strconv.Itoa(th.InterleavedIDs[0])
+			}
+			in.learnMediaPath(out, &th)
+		}
+	}
+	if (r.Method == "play" || r.Method == "record") && out.Status == 200 {
+		if idx, err := strconv.Atoi(strings.SplitN(out.SessHdr, ":", 2)[0]); err == nil && in.sessMedia[idx] != nil {
+			in.sessMedia[idx].owner = r.Conn
 		}
 	}
 
@@ -810,6 +878,181 @@ func (in *instance) noConnDiag(cl *client) string {
 	return d + fmt.Sprintf(", server side closed=%v (%s); dialled %v ago, OnConnOpen %v ago, OnConnClose %v ago, ports %d/%d, idle %v",
 		cl.rec.closed, cl.rec.closeErr, time.Since(cl.dialledAt).Round(time.Millisecond), time.Since(cl.rec.openedAt).Round(time.Millisecond),
 		time.Since(cl.rec.closedAt).Round(time.Millisecond), cl.port, cl.rec.port, in.srv.IdleTimeout)
+}
+
+// learnMediaPath remembers where the first media of a session flows (first successful SETUP).
+func (in *instance) learnMediaPath(out ReqResult, th *headers.Transport) {
+	if out.Status != 200 {
+		return
+	}
+	idx, err := strconv.Atoi(strings.SplitN(out.SessHdr, ":", 2)[0])
+	if err != nil || in.sessMedia[idx] != nil {
+		return
+	}
+	mp := &mediaPath{owner: -1}
+	switch {
+	case th.Protocol == headers.TransportProtocolTCP && th.InterleavedIDs != nil:
+		mp.tcp, mp.tcpChannel = true, th.InterleavedIDs[0]
+	case th.ClientPorts != nil && th.ServerPorts != nil:
+		mp.udpPort = th.ClientPorts[0]
+		mp.serverRTP = &net.UDPAddr{IP: net.IPv4(127, 0, 0, 1), Port: th.ServerPorts[0]}
+	default:
+		return // multicast: not probed
+	}
+	in.sessMedia[idx] = mp
+}
+
+var mediaMarker = []byte{0x65, 0xC0, 0x2F, 0x10, 0x0B, 0xAD}
+
+const (
+	mediaWait = 300 * time.Millisecond
+)
+
+// doMedia finds out whether media flows for session k: to a reader, a packet written to the
+// stream must arrive on the reader's transport; from a publisher, a packet it sends must be counted
+// by the session.  "flow -": no such session; "flow ?": cannot be probed (multicast).
+func (in *instance) doMedia(k int) string {
+	var rec *sessRec
+	for _, r := range in.liveSessions() {
+		if r.idx-in.sessBase == k {
+			rec = r
+		}
+	}
+	if rec == nil {
+		return "flow -"
+	}
+	mp := in.sessMedia[k]
+	medias := rec.ss.Medias()
+	if mp == nil || len(medias) == 0 {
+		if tr := rec.ss.Transport(); tr != nil && tr.Protocol == gortsplib.ProtocolUDPMulticast {
+			return "flow ?"
+		}
+		return "flow 0"
+	}
+	publisher := rec.ss.AnnouncedDescription() != nil
+	in.mediaSeq++
+	pkt := &rtp.Packet{Header: rtp.Header{Version: 2, PayloadType: 96, SequenceNumber: in.mediaSeq, Timestamp: uint32(in.mediaSeq) * 3000, SSRC: 0x5e55},
+		Payload: mediaMarker}
+	if !mp.tcp {
+		in.ownPorts(mp.udpPort)
+		if in.envErr != "" {
+			return "flow ?"
+		}
+	}
+	if publisher {
+		before := rec.ss.Stats().InboundBytes
+		raw, _ := pkt.Marshal()
+		if mp.tcp {
+			// an interleaved frame outside RECORD would end the standard read loop: only probe while the API says record
+			cl := in.clients[mp.owner]
+			if rec.ss.State() != gortsplib.ServerSessionStateRecord || cl == nil || cl.dead {
+				return "flow 0"
+			}
+			cl.nc.SetWriteDeadline(time.Now().Add(watchdog))
+			if err := cl.c.WriteInterleavedFrame(&base.InterleavedFrame{Channel: mp.tcpChannel, Payload: raw}, make([]byte, 2048)); err != nil {
+				return "flow 0"
+			}
+		} else {
+			in.udpSocks[mp.udpPort].rtp.WriteToUDP(raw, mp.serverRTP) //nolint:errcheck
+		}
+		deadline := time.Now().Add(mediaWait)
+		for time.Now().Before(deadline) {
+			if rec.ss.Stats().InboundBytes > before {
+				return "flow 1"
+			}
+			time.Sleep(2 * time.Millisecond)
+		}
+		return "flow 0"
+	}
+	// reader
+	if mp.tcp {
+		cl := in.clients[mp.owner]
+		if mp.owner < 0 || cl == nil || cl.dead {
+			return "flow 0"
+		}
+		if err := in.stream.WritePacketRTP(medias[0], pkt); err != nil {
+			return "flow 0"
+		}
+		cl.nc.SetReadDeadline(time.Now().Add(mediaWait))
+		for {
+			what, err := cl.c.Read()
+			if err != nil {
+				if ne, ok := err.(net.Error); ok && ne.Timeout() {
+					// a read deadline does not break the stream framing when nothing was read
+					return "flow 0"
+				}
+				return "flow 0"
+			}
+			if f, ok := what.(*base.InterleavedFrame); ok && f.Channel == mp.tcpChannel && bytes.Contains(f.Payload, mediaMarker) {
+				return "flow 1"
+			}
+		}
+	}
+	sock := in.udpSocks[mp.udpPort].rtp
+	buf := make([]byte, 2048)
+	sock.SetReadDeadline(time.Now().Add(time.Millisecond))
+	for { // drain what arrived earlier
+		if _, _, err := sock.ReadFromUDP(buf); err != nil {
+			break
+		}
+	}
+	if err := in.stream.WritePacketRTP(medias[0], pkt); err != nil {
+		return "flow 0"
+	}
+	sock.SetReadDeadline(time.Now().Add(mediaWait))
+	for {
+		n, _, err := sock.ReadFromUDP(buf)
+		if err != nil {
+			return "flow 0"
+		}
+		if bytes.Contains(buf[:n], mediaMarker) {
+			return "flow 1"
+		}
+	}
+}
+
+// doSilence: every peer stays silent until all timeouts have run out (only sensible on an instance
+// with short timeouts); reports what is left.
+func (in *instance) doSilence() (string, bool) {
+	idle, read, check := in.srv.IdleTimeout, in.srv.ReadTimeout, time.Duration(in.cfg.CheckMs)*time.Millisecond
+	if check == 0 {
+		check = time.Second
+	}
+	bound := idle
+	if read > bound {
+		bound = read
+	}
+	bound += check + 700*time.Millisecond
+	if bound > 6*time.Second {
+		return "", false
+	}
+	allGone := func() bool {
+		for _, cl := range in.clients {
+			if cl.rec != nil && !cl.rec.closed {
+				return false
+			}
+		}
+		for _, r := range in.core.sessions[in.sessBase:] {
+			if r.closeCount == 0 {
+				return false
+			}
+		}
+		return true
+	}
+	in.core.waitFor(bound, allGone)
+	for _, cl := range in.clients {
+		if cl.rec != nil {
+			in.core.mu.Lock()
+			closed := cl.rec.closed
+			in.core.mu.Unlock()
+			if closed && !cl.dead {
+				cl.dead = true
+				cl.nc.Close()
+			}
+		}
+	}
+	in.settle()
+	return in.snapshot().String(), true
 }
 
 // BatchResult is what the client saw for a pipelined batch.
